@@ -9,20 +9,25 @@
    bodies, the final error and the names visible in the main module are the observables. *)
 EXTENDS Integers, Sequences, FiniteSets, TLC, Json
 
-CONSTANTS Mods, Missing      \* Missing: module names that have no file
+CONSTANTS Mods, Missing,     \* Missing: module names that have no file
+          MainOrders,        \* {} = every ordered non-empty import list of the main file; otherwise exactly these lists
+          NRandom            \* 0 = every digraph; n > 0 = n digraphs drawn by TLC's RandomElement (-seed)
 
 VARIABLES edges, mainImp, stack, loaded, trace, res
 vars == <<edges, mainImp, stack, loaded, trace, res>>
 
 \* import order inside a module: alphabetical
 RECURSIVE SortSet(_)
-MinOf(S) == CHOOSE x \in S : \A y \in S : x = y \/ \E k \in 1..3 : (<<"a", "b", "c", "d">>[k] = x /\ \E q \in k + 1..4 : <<"a", "b", "c", "d">>[q] = y)
+Alpha == <<"a", "b", "c", "d", "e">>
+MinOf(S) == CHOOSE x \in S : \A y \in S : x = y \/ \E k \in 1..4 : (Alpha[k] = x /\ \E q \in k + 1..5 : Alpha[q] = y)
 SortSet(S) == IF S = {} THEN <<>> ELSE <<MinOf(S)>> \o SortSet(S \ {MinOf(S)})
 Imports(m) == SortSet({y \in Mods \cup Missing : <<m, y>> \in edges})
 Orders == {s \in UNION {[1..n -> Mods \cup Missing] : n \in 1..Cardinality(Mods)} : \A p, q \in DOMAIN s : p # q => s[p] # s[q]}
 
-Init == /\ edges \in SUBSET ((Mods \X (Mods \cup Missing)))
-        /\ mainImp \in Orders
+RandEdges(i) == RandomElement(SUBSET (Mods \X (Mods \cup Missing)))     \* the parameter only defeats TLC's caching of constant operators
+Init == /\ IF NRandom = 0 THEN edges \in SUBSET ((Mods \X (Mods \cup Missing)))
+           ELSE \E i \in 1..NRandom : edges = RandEdges(i)
+        /\ mainImp \in (IF MainOrders = {} THEN Orders ELSE MainOrders)
         /\ stack = << [m |-> "main", next |-> 1] >> /\ loaded = {} /\ trace = <<>> /\ res = "run"
 Top == stack[Len(stack)]
 ImpsOf(m) == IF m = "main" THEN mainImp ELSE Imports(m)
